@@ -124,6 +124,21 @@ def check_case(ctx, cs):
         ok, r = _call(ctx, "knotvector.check", tags + [o["variant"]], small, knotvector.check, p, W, o["nc"])
         if ok and bool(r) != o["ok"]:
             ctx.violate("knotvector.check", tags + [o["variant"]], small, {"expected": o["ok"], "got": r})
+        # the object setters enforce the same rule: an invalid vector is rejected (ValueError), a valid one accepted
+        from geomdl import BSpline
+        try:
+            crv = BSpline.Curve()
+            crv.degree = p
+            crv.ctrlpts = [[float(i), float((i * i) % 3)] for i in range(o["nc"])]
+            try:
+                crv.knotvector = W
+                accepted = True
+            except ValueError:
+                accepted = False
+            if accepted != o["ok"]:
+                ctx.violate("Curve.knotvector.setter", tags + [o["variant"]], small, {"expected_accepted": o["ok"], "accepted": accepted})
+        except Exception as e:
+            ctx.violate("Curve.knotvector.setter", tags + [o["variant"], "raises"], small, {"exception": repr(e)[:200]})
     else:
         raise core.MachineryError("unknown op " + op)
 
